@@ -501,6 +501,24 @@ class ExprMixin:
                 and len(test.args) == 2):
             return
         target, clsexpr = test.args
+        # built-in container classes: isinstance(x, dict) keeps the dict objects behind x (and drops them otherwise)
+        bnames = None
+        if isinstance(clsexpr, ast.Name) and clsexpr.id in ("dict", "list", "tuple", "set"):
+            bnames = {clsexpr.id}
+        elif isinstance(clsexpr, ast.Tuple) and clsexpr.elts and all(
+                isinstance(x, ast.Name) and x.id in ("dict", "list", "tuple", "set") for x in clsexpr.elts):
+            bnames = {x.id for x in clsexpr.elts}
+        if bnames is not None:
+            if isinstance(target, ast.Name) and target.id in self.frame.env:
+                cur = self.frame.env[target.id]
+                keep = set()
+                for r in cur.refs:
+                    oc = self.obj(r).cls
+                    if oc not in ("dict", "list", "tuple", "set") or (oc in bnames) == polarity:
+                        keep.add(r)
+                if keep != set(cur.refs) and (keep or cur.locs):
+                    self.frame.env[target.id] = cur.with_(refs=frozenset(keep))
+            return
         quiet_out, self.out = self.out, []
         try:
             cv = self.eval(clsexpr)
